@@ -1,6 +1,7 @@
 import BU.Driver.Core
 import BU.Driver.Taproot
 import BU.Driver.Keys
+import BU.Driver.HD
 import BU.Gen.Codec
 import BU.Gen.Tables
 import BU.Crypto.Sha256
@@ -144,6 +145,28 @@ def genOps2 : List (String × R String) := [
       -- Address.__init__(address=s): validate, then decode
       let (ty, pfx) ← tyPfx; let s ← str
       pure (ansG hex (Gen.address_init_address Crypto.sha256 b58dec ty pfx pfx s))),
+  ("g:hd_run", do
+      -- HDWallet(xprivate_key=x, path=p0); from_path(p1); …; get_private_key() through the translated wrapper.  The third-party
+      -- hdwallet object is the parameter model (root, current key) with the Spec's BIP32; a path travels as a string the wrapper
+      -- only hands on
+      let mainnet ← bool; let pfx ← netPfx; let x ← str; let paths ← listOf (listOf nat)
+      let enc := fun (p : List Nat) => " ".intercalate (p.map toString)
+      let pp := fun (s : String) => (s.splitOn " ").filterMap String.toNat?
+      let nw := fun (_ : Bool) => ({ root := default, cur := default } : Model.HD.ExtHDW)
+      let fm := fun (w : Model.HD.ExtHDW) (_ : String) => (Except.ok w : Except PyErr Model.HD.ExtHDW)
+      let fx := fun (_ : Model.HD.ExtHDW) (s : String) => match parseXprv s with
+        | some k => (Except.ok { root := k, cur := k } : Except PyErr Model.HD.ExtHDW) | none => .error .valueError
+      let fd := fun (w : Model.HD.ExtHDW) (s : String) => Model.HD.ExtHDW.fromDerivation hmac w (pp s)
+      let wif := fun (w : Model.HD.ExtHDW) => Model.toWif Crypto.dsha256 (Model.HD.extWifPrefix mainnet) w.cur.key true
+      let dec := fun (x : String) => match Spec.B58.decode x with
+        | some d => (Except.ok d : Except PyErr Bytes) | none => .error .valueError
+      let sfs := fun (b : Bytes) => (Model.signingKeyFromString b).map (fun (n : Nat) => (n : Int))
+      let sfe := fun (e : Int) => (Model.signingKeyFromExponent e).map (fun (n : Nat) => (n : Int))
+      pure (ansG (fun (o : Option Int) => match o with | some d => hex (Py.beBytes 32 d.toNat) | none => "random") (do
+        let p0 := paths.headD []
+        let w0 ← Gen.hd_init Model.HD.ExtHDW nw fm fx fd mainnet (some x) (some (enc p0)) none
+        let w ← (paths.drop 1).foldlM (fun w p => Gen.hd_from_path Model.HD.ExtHDW Model.HD.ExtHDW.clean fd w (enc p)) w0
+        Gen.hd_get_private_key Model.HD.ExtHDW wif Crypto.sha256 dec sfs sfe pfx w))),
   ("g:priv_init", do
       -- PrivateKey.__init__: python-ecdsa's constructors replaced by their range checks, base58check by the Spec's
       let pfx ← netPfx; let w ← optStr; let e ← optInt; let b ← optBytes
